@@ -83,9 +83,7 @@ class FieldArrayModel(FieldCompositeModel):
     def pre_randomize(self, visited):
         # Set the size field for arrays that don't
         # have a random size
-        if self.is_rand_sz:
-            self.size.set_used_rand(True)
-        else:
+        if not self.is_rand_sz:
             self._set_size(len(self.field_l))
         FieldCompositeModel.pre_randomize(self, visited)
         
